@@ -362,3 +362,4 @@ PROP = C19()
 
 PROP.rule += (" Strata added while closing seeded changes (DESIGN section 10): "
               'structured junk, blank junk lines, shuffled header sections, bracket-only units, streams named by a descriptor, line numbers in messages, bound on added items, reads into a used LASFile.')
+PROP.rule += ' Round 8: the skip warnings are captured (the line that raises without the flag must be warned about), tolerant reads repeated.'
